@@ -1729,3 +1729,32 @@ theorem MotionTie_go_stmt_xf (c : GscribModel.Transform.Core) (b : B) (rapid : B
       (c.go rapid req).2.map stmtView := by
   rw [(MotionTie_go_xf c b rapid req h hax hrel hh hb).2.2]
   rfl
+
+/-! ## Probes under a transform -/
+open GscribModel.MotionTie GscribModel.PointTie in
+theorem MotionTie_probe_id (s : BSt) (m : Arg ProbingMode) (p : Pt) (k : VParams) (h : Rat) :
+    GCodeBuilder.probe s m p k h = GCodeBuilder.probe_T applyTransformId s m p k h := rfl
+
+open GscribModel.MotionTie GscribModel.PointTie in
+/-- **`probe()` under any transform**: one probe statement whose axis words are the C04 model's move vector for the request (the
+    image of the target in absolute mode, the linear image of the displacement in relative mode, unmentioned and unmoved axes left
+    out); afterwards exactly the probed axes of the tracked position are unknown, the others hold the target. -/
+theorem MotionTie_probe_xf (c : GscribModel.Transform.Core) (b : B) (m : ProbeArg) (hm : m ≠ .bogus) (req : GscribModel.Transform.Pt) (h : Rat)
+    (hax : b.axes = ofT c.axes) (hrel : b.rel = c.rel) (hb : b.bounds.axes = none) :
+    let g := GCodeBuilder.probe_T (xfOf c.tr) (absB b) (argProbe m) (ofT req) [] h
+    g.2 = none ∧ g.1._current_axes = (ofV (c.transformMove req).2).mask (ofT (c.transformMove req).1) ∧
+    g.1.out.map conv = [([m.code.text], ofT (c.transformMove req).1, [])] := by
+  have e0 : absB b = absB' b [] [] := rfl
+  have hfin : VParams.fin? ([] : VParams) = some [] := rfl
+  have hok : b.okTrack [] = true := rfl
+  have htr : b.track [] = b := rfl
+  have hF : ∀ f, lookupQ ([] : List (String × Rat)) "F" = some f → Val.isDouble (.fin f) := by intro f hf; cases hf
+  have hS : ∀ s, lookupQ ([] : List (String × Rat)) "S" = some s → Val.isDouble (.fin s) := by intro s hs; cases hs
+  cases m with
+  | bogus => exact absurd rfl hm
+  | towards | towardsNoErr | away | awayNoErr =>
+    simp only [GCodeBuilder.probe_T, argProbe, pmp1, pmp2, e0, builder_transform_move_xf c b req h hax hrel hb, MP.withXYZ, getStatementMP_eq,
+      hfin, Option.map_some, track_eq b [] [] [] (ofT req) [] hfin hF hS, hok, if_true, htr, PointTie_mask,
+      update_axes_eq b [] [] _ (ofT req) [] [] hfin, okAxes_none _ _ hb, write_eq]
+    refine ⟨trivial, rfl, ?_⟩
+    simp [absB', conv, partCodes, partAx, partWords, tlm, ProbingMode.memberName, ProbeArg.code, Code.text]
